@@ -27,6 +27,14 @@ const genesisTs = int64(1000000000)
 type ledger struct {
 	nd     *Node
 	delegs map[uint64][]*types.PillarDelegation // by momentum height
+	dt     func(rng *rand.Rand) int64           // spacing of the momentums of a history (nil: randDt)
+}
+
+func (l *ledger) nextDt(rng *rand.Rand) int64 {
+	if l.dt != nil {
+		return l.dt(rng)
+	}
+	return randDt(rng)
 }
 
 func newLedger(nd *Node) *ledger {
@@ -193,6 +201,26 @@ func (l *ledger) refProof(ts int64) *nom.Momentum {
 	return proof
 }
 
+// refTick: the ordered producers of a whole tick by the reference election (nil: no proof momentum / no schedule)
+func (l *ledger) refTick(tick uint64) []types.Address {
+	nc := int(constants.ConsensusConfig.NodeCount)
+	rc := int(constants.ConsensusConfig.RandCount)
+	tl := constants.ConsensusConfig.BlockTime * int64(nc)
+	proof := l.refProof(genesisTs + int64(tick)*tl)
+	if proof == nil {
+		return nil
+	}
+	sch := refSchedule(l.delegs[proof.Height], proof.Height, nc, rc)
+	if len(sch) != nc {
+		return nil
+	}
+	r := make([]types.Address, nc)
+	for i, d := range sch {
+		r[i] = d.Producing
+	}
+	return r
+}
+
 // refProducer: nil if ts is no slot start or there is no proof momentum
 func (l *ledger) refProducer(ts int64) *types.Address {
 	nc := int(constants.ConsensusConfig.NodeCount)
@@ -353,7 +381,7 @@ func (l *ledger) step(rng *rand.Rand, out *Out) {
 	}
 	if rng.Intn(4) == 0 {
 		nd.Momentum()
-	} else if err := produceAt(nd, randDt(rng)); err != nil {
+	} else if err := produceAt(nd, l.nextDt(rng)); err != nil {
 		panic(err)
 	}
 	l.record()
